@@ -421,9 +421,31 @@ pub fn reverse_maps(v: &V) -> V {
     }
 }
 
-/// the `:full` seeds once more with every map reversed
+/// Does this build decode the message although its members are not in canonical order? The
+/// properties do not promise that (CTAP2 lets an authenticator insist on canonical order), so the
+/// spaces that send members in another order only assert something where the unmodified
+/// reordered message is accepted; a strict decoder makes them empty instead of alarming.
+pub fn accepts_reordered(target: &Target, wire: &V) -> bool {
+    matches!(target.observe_bytes(&target.bytes(wire)), Dec::Ok(_))
+}
+
+/// entries of a parameter list with `type` sent before `alg`
+pub fn accepts_reordered_entries() -> bool {
+    static ONCE: std::sync::OnceLock<bool> = std::sync::OnceLock::new();
+    *ONCE.get_or_init(|| {
+        let entry = V::M(vec![(V::t("type"), V::t(PUBLIC_KEY)), (V::t("alg"), V::int(-7))]);
+        accepts_reordered(&Target::Alone("filteredParams"), &V::A(vec![entry]))
+    })
+}
+
+/// the `:full` seeds once more with every map reversed (those the decoder accepts in that order)
 pub fn reversed_full_seeds() -> Vec<SeedMsg> {
-    seed_msgs(true).into_iter().filter(|s| s.label.ends_with(":full")).map(|s| SeedMsg { label: format!("{} (members reversed)", s.label), target: s.target, wire: reverse_maps(&s.wire) }).collect()
+    seed_msgs(true)
+        .into_iter()
+        .filter(|s| s.label.ends_with(":full"))
+        .map(|s| SeedMsg { label: format!("{} (members reversed)", s.label), target: s.target, wire: reverse_maps(&s.wire) })
+        .filter(|s| accepts_reordered(&s.target, &s.wire))
+        .collect()
 }
 
 /// PX sweep over replacements: real decoder vs reference decoder on every mutated message
